@@ -724,5 +724,5 @@ class GIRWriter(XMLWriter):
         self._append_node_generic(signal, attrs)
         with self.tagcontext('glib:signal', attrs):
             self._write_generic(signal)
-            self._write_return_type(signal.retval)
+            self._write_return_type(signal.retval, parent=signal)
             self._write_parameters(signal)
